@@ -113,60 +113,64 @@ def judge(chk, prop, cases, real, model, path, stats):
             chk.sample({"op": S.model_line(cfg, data, argt, value, path), "real": rl}, limit=4)
 
 
+def run_cases(chk, prop, shapes, argts, cases, path, noopt, model_exe, stats, pins=(), compiler="g++"):
+    real = S.execute(shapes, argts, cases, noopt=noopt, compiler=compiler)
+    model = None
+    if model_exe:
+        model = common.Model(model_exe).ask([S.model_line(*c, path) for c in cases])
+    for (k, case), rl in zip(pins, real):      # pinned findings come first in `cases`
+        if compare_with_spec(prop, case, rl):
+            chk.report_known(k)
+    judge(chk, prop, cases, real, model, path, stats)
+
+
 def direct_part(chk, prop, tier, model_exe, stats, budget="run"):
     """The direct-template correspondence.  model_exe None = model-free search."""
     r = common.rng(prop + "-direct-" + tier + budget)
+    pins = pinned_cases(chk)
+    pin_cases = [c for _, c in pins]
+
+    def with_pins(shapes, argts, cases):
+        for c in pin_cases:
+            s = S.shape_of(c[0])
+            if s not in argts:
+                shapes.append(s)
+                argts[s] = S.shape_argts(s, r)
+            if c[2] not in argts[s]:
+                argts[s] = argts[s] + [c[2]]
+        return shapes, argts, pin_cases + cases
+
     if tier == "quick":
         cfgs = S.quick_configs(r)
-        n_per = 64
-        runs = [("opt", False)]
+        stats["configurations"] = len(cfgs)
+        shapes, argts, cases = with_pins(*S.build_cases(cfgs, r, 64))
+        stats["shapes_compiled"] = len(shapes)
+        run_cases(chk, prop, shapes, argts, cases, "opt", False, model_exe, stats, pins)
         # a slice of the configurations also through the portable code path
         noopt_cfgs = [c for i, c in enumerate(cfgs) if i % 12 == 0]
-    else:
-        cfgs = S.thorough_configs(r)
-        n_per = 48
-        runs = [("opt", False), ("noopt", True)]
-        noopt_cfgs = None
-    pins = pinned_cases(chk)
-    shapes, argts, cases = S.build_cases(cfgs, r, n_per)
-    pin_cases = [c for _, c in pins]
-    for c in pin_cases:
-        s = S.shape_of(c[0])
-        if s not in argts:
-            shapes.append(s)
-            argts[s] = S.shape_argts(s, r)
-        if c[2] not in argts[s]:
-            argts[s] = argts[s] + [c[2]]
-    allcases = pin_cases + cases
-    stats["configurations"] = len(cfgs)
-    stats["shapes_compiled"] = len(shapes)
-    for path, noopt in runs:
-        real = S.execute(shapes, argts, allcases, noopt=noopt)
-        model = None
-        if model_exe:
-            model = common.Model(model_exe).ask([S.model_line(*c, path) for c in allcases])
-        # pinned findings first
-        for (k, case), rl in zip(pins, real):
-            if compare_with_spec(prop, case, rl):
-                chk.report_known(k)
-        judge(chk, prop, allcases, real, model, path, stats)
-    if noopt_cfgs:
         shapes2, argts2, cases2 = S.build_cases(noopt_cfgs, r, 24)
-        real = S.execute(shapes2, argts2, cases2, noopt=True)
-        model = None
-        if model_exe:
-            model = common.Model(model_exe).ask([S.model_line(*c, "noopt") for c in cases2])
-        judge(chk, prop, cases2, real, model, "noopt", stats)
-    if tier == "thorough":
-        # second compiler on the boundary configurations
-        cfgs3 = S.quick_configs(common.rng(prop + "-clang"))
-        shapes3, argts3, cases3 = S.build_cases(cfgs3, r, 16)
-        real = S.execute(shapes3, argts3, cases3, noopt=False, compiler="clang++")
-        model = None
-        if model_exe:
-            model = common.Model(model_exe).ask([S.model_line(*c, "opt") for c in cases3])
-        judge(chk, prop, cases3, real, model, "opt", stats)
-        stats["clang_cases"] = len(cases3)
+        stats["shapes_compiled"] += len(shapes2)
+        run_cases(chk, prop, shapes2, argts2, cases2, "noopt", True, model_exe, stats)
+        return
+    # thorough: every (c, o, w) triple, both code paths, one container size at a time
+    allcfgs = S.thorough_configs(r)
+    stats["configurations"] = len(allcfgs)
+    first = True
+    for c in range(8, 65, 8):
+        cfgs = [x for x in allcfgs if x.c == c]
+        for path, noopt in (("opt", False), ("noopt", True)):
+            shapes, argts, cases = S.build_cases(cfgs, r, 24)
+            p = ()
+            if first:
+                shapes, argts, cases = with_pins(shapes, argts, cases)
+                p, first = pins, False
+            stats["shapes_compiled"] += len(shapes)
+            run_cases(chk, prop, shapes, argts, cases, path, noopt, model_exe, stats, p)
+    # second compiler on the boundary configurations
+    cfgs3 = S.quick_configs(common.rng(prop + "-clang"))
+    shapes3, argts3, cases3 = S.build_cases(cfgs3, r, 16)
+    run_cases(chk, prop, shapes3, argts3, cases3, "opt", False, model_exe, stats, compiler="clang++")
+    stats["clang_cases"] = len(cases3)
 
 
 def replay_direct(rec):
